@@ -44,6 +44,9 @@ THEOREMS = [
     'Nb.C04.nifti_roundtrip_header_not_close',
     'Nb.C04.nifti_roundtrip_header_close_keeps_header',
     'Nb.C04.update_header_allclose_counterexample',
+    'Nb.C04.check_fix_codes',
+    'Nb.C04.sform_code_survives_load',
+    'Nb.C04.gen_xform_codes_ok',
     'Nb.C04.analyze_roundtrip_zooms',
     'Nb.C04.gen_thresholds_ok',
 ]
@@ -105,7 +108,9 @@ PENDING_FINDINGS = [
 
 
 def _nib():
+    import logging
     import nibabel as nib
+    logging.getLogger('nibabel.global').setLevel(logging.CRITICAL)   # header-check fixes are logged, not raised
     from nibabel.freesurfer.mghformat import MGHImage
     return {'N1': nib.Nifti1Image, 'N1P': nib.Nifti1Pair, 'N2': nib.Nifti2Image, 'AN': nib.AnalyzeImage,
             'S99': nib.Spm99AnalyzeImage, 'S2': nib.Spm2AnalyzeImage, 'MGH': MGHImage}
@@ -132,14 +137,43 @@ def mat_of(a12):
     return A
 
 
+# NIfTI-1 standard (nifti1.h) xform codes — the oracle's own table, NOT read from nibabel
+STD_XFORM = {0: ('unknown', 'NIFTI_XFORM_UNKNOWN'), 1: ('scanner', 'NIFTI_XFORM_SCANNER_ANAT'),
+             2: ('aligned', 'NIFTI_XFORM_ALIGNED_ANAT'), 3: ('talairach', 'NIFTI_XFORM_TALAIRACH'),
+             4: ('mni', 'NIFTI_XFORM_MNI_152'), 5: ('template', 'NIFTI_XFORM_TEMPLATE_OTHER')}
+
+
+def std_code(tok):
+    """integer code of a code token (int or alias string) by the standard; None = not a valid code"""
+    if isinstance(tok, str):
+        for c, names in STD_XFORM.items():
+            if tok in names:
+                return c
+        return None
+    return int(tok) if int(tok) in STD_XFORM else None
+
+
+def code_tok(rng, c, p_alias=0.35):
+    """the integer code or, sometimes, one of its string aliases"""
+    if c in STD_XFORM and rng.random() < p_alias:
+        return rng.choice(STD_XFORM[c])
+    return c
+
+
+def fmt_code(tok, raw=None):
+    return str(tok) + ('' if raw is None else f'!{int(raw)}')
+
+
 def fmt_hdr(cls, h):
     if h is None:
         return '-'
     if cls in NIFTI:
-        def one(t):
+        raw = h.get('raw') or {}
+
+        def one(t, r):
             code, a = t
-            return f'{int(code)}:' + ('-' if a is None else fmt_aff12(a))
-        return 'q=' + one(h['q']) + ';s=' + one(h['s'])
+            return fmt_code(code, r) + ':' + ('-' if a is None else fmt_aff12(a))
+        return 'q=' + one(h['q'], raw.get('q')) + ';s=' + one(h['s'], raw.get('s'))
     if cls == 'MGH':
         return 'a=' + fmt_aff12(h['a'])
     return 'z=' + ','.join(fr(v) for v in h['z']) + ';o=' + ','.join(str(int(v)) for v in h['o'])
@@ -170,7 +204,7 @@ def mk_comp(op, args, stream, line=True):
             ln = f'C04 fp {args[0]} ' + ','.join(fr(v) for v in args[1])
         elif op in ('hq', 'hs'):
             cls, a12, code = args
-            ln = f'C04 {op} {cls} ' + fmt_aff12(a12) + f' {int(code)}'
+            ln = f'C04 {op} {cls} ' + fmt_aff12(a12) + ' ' + fmt_code(code)
         elif op == 'szaff':
             shape, zooms, flip = args
             ln = 'C04 szaff ' + (','.join(str(int(s)) for s in shape) or '-') + ' ' + \
@@ -200,8 +234,13 @@ def build_header(cls, shape, h):
     if cls in NIFTI:
         qc, qa = h['q']
         sc, sa = h['s']
-        hdr.set_qform(None if qa is None else mat_of(qa), code=int(qc))
-        hdr.set_sform(None if sa is None else mat_of(sa), code=int(sc))
+        hdr.set_qform(None if qa is None else mat_of(qa), code=qc)
+        hdr.set_sform(None if sa is None else mat_of(sa), code=sc)
+        raw = h.get('raw') or {}
+        if raw.get('q') is not None:      # a code written behind the API's back (foreign / damaged file)
+            hdr['qform_code'] = int(raw['q'])
+        if raw.get('s') is not None:
+            hdr['sform_code'] = int(raw['s'])
         return hdr
     z = list(h['z'])[:min(len(shape), 3)]
     hdr.set_zooms(tuple(z) + tuple(1.0 for _ in range(len(shape) - len(z))))
@@ -284,11 +323,11 @@ def impl(case):
         case.extra = ex
         try:
             if d['op'] == 'hs':
-                h.set_sform(A, code=int(code))
+                h.set_sform(A, code=code)
                 s_, sc = h.get_sform(coded=True)
                 ex.update(s=s_, sc=sc)
                 return f's={sc}:' + ('None' if s_ is None else show_aff(s_))
-            h.set_qform(A, code=int(code))
+            h.set_qform(A, code=code)
             q, qc = h.get_qform(coded=True)
             ex.update(q=h.get_qform(), qc=qc,
                       qfields={'bcd': [h['quatern_b'].item(), h['quatern_c'].item(), h['quatern_d'].item()],
@@ -537,6 +576,9 @@ def spec_differs(d):
         return False
     if cls in NIFTI:
         (qc, qa), (sc, sa) = h['q'], h['s']
+        raw = h.get('raw') or {}
+        qc = raw['q'] if raw.get('q') is not None else std_code(qc)
+        sc = raw['s'] if raw.get('s') is not None else std_code(sc)
         if sc != 0:
             return sa is not None and list(sa) != list(d['A'])
         if qc != 0:
@@ -555,12 +597,35 @@ def oracle_rt(case, out):
     d = case.data
     cls, shape, A = d['cls'], tuple(d['shape']), mat_of(d['A'])
     ex = case.extra or {}
+    bad_codes, raw_invalid = [], False
+    if cls in NIFTI and d['hdr'] is not None:
+        bad_codes = [t[0] for t in (d['hdr']['q'], d['hdr']['s']) if std_code(t[0]) is None]
+        raw_invalid = any(v is not None and v not in STD_XFORM for v in (d['hdr'].get('raw') or {}).values())
     if out.startswith('ERR'):
         err = ex.get('err', '')
         sig = 'raises'
+        if bad_codes and out == 'ERR:KeyError':
+            return None          # a code outside the standard table is refused by set_sform / set_qform
         return tag(sig, f'{cls}: save/load of a non-singular affine raised {out} ({err[:120]})')
+    if bad_codes:
+        return tag('xform-code:invalid-accepted', f'{cls}: header accepted the invalid xform code(s) {bad_codes}')
+    if raw_invalid:
+        return None              # damaged code field: what the loader makes of it is compared with the model only
     L = ex['aff']
     HB = ex.get('hdr_best')
+    s_spec = d['hdr']['s'] if (cls in NIFTI and d['hdr'] is not None) else None
+    s_holds_A = s_spec is not None and std_code(s_spec[0]) != 0 and s_spec[1] is not None \
+        and list(s_spec[1]) == list(d['A']) and (d['hdr'].get('raw') or {}).get('s') is None
+    if cls in NIFTI and d['hdr'] is not None and HB is not None and (np.array_equal(HB, A) or s_holds_A):
+        # the supplied header already holds the image affine: it is kept, and every VALID code the user set
+        # (0..5 of the NIfTI-1 standard, by number or by name) must come back from the file
+        raw = d['hdr'].get('raw') or {}
+        want_q = raw['q'] if raw.get('q') is not None else std_code(d['hdr']['q'][0])
+        want_s = raw['s'] if raw.get('s') is not None else std_code(d['hdr']['s'][0])
+        if (ex['sc'], ex['qc']) != (want_s, want_q):
+            return tag('xform-code:not-preserved',
+                       f'{cls}: header saved with sform/qform codes {want_s}/{want_q} ({d["hdr"]["s"][0]!r}/'
+                       f'{d["hdr"]["q"][0]!r}) reloads with {ex["sc"]}/{ex["qc"]}')
 
     def classify(msg, default):
         # finding (i): a header was supplied whose affine is allclose-but-not-equal to the image affine and the
@@ -656,6 +721,10 @@ def oracle(case, out):
     if d['op'] in ('hq', 'hs'):
         cls, a12, code = a
         A = mat_of(a12)
+        if std_code(code) is None:
+            return None if out == 'ERR:KeyError' else \
+                tag('xform-code:invalid-accepted', f'{cls} header: invalid xform code {code!r} accepted')
+        code = std_code(code)
         if out.startswith('ERR'):
             return tag('header:raises', f'{cls} header: set_{"q" if d["op"] == "hq" else "s"}form/get of a '
                                         f'non-singular affine raised {out} ({ex.get("err", "")[:120]})')
@@ -844,8 +913,8 @@ def exact_nifti_case(rng, cls):
     if mode < 0.25:
         A = exact_affine(rng, sheared=rng.random() < 0.3)
     else:
-        qc = rng.choice([0, 0, 1, 2, 3, 4])
-        sc = rng.choice([0, 0, 1, 2, 3, 4])
+        qc = rng.choice([0, 0, 1, 2, 3, 4, 5])
+        sc = rng.choice([0, 0, 1, 2, 3, 4, 5])
         if rng.random() < 0.08:        # both codes 0: the shape/zoom fallback is the header's affine
             sc = qc = 0
         # what the qform affine must be for every float operation on it to be exact where it is observed:
@@ -864,7 +933,8 @@ def exact_nifti_case(rng, cls):
             sa = None
         else:
             sa, _ = variant(rng, A)
-        hdr = {'q': [qc, None if qa is None else aff12_of(qa)], 's': [sc, None if sa is None else aff12_of(sa)]}
+        hdr = {'q': [code_tok(rng, qc), None if qa is None else aff12_of(qa)],
+               's': [code_tok(rng, sc), None if sa is None else aff12_of(sa)]}
         if sc == 0 and qc == 0 and rng.random() < 0.6:
             # image affine equal / near the shape-zoom fallback of this header
             try:
@@ -872,6 +942,18 @@ def exact_nifti_case(rng, cls):
                 A = hb if rng.random() < 0.5 else near_affine(rng, hb)
             except Exception:
                 pass
+        r = rng.random()
+        if r < 0.03:        # a code outside the table: refused with KeyError
+            hdr[rng.choice(['q', 's'])][0] = rng.choice([6, 7, 100, 'bogus', 'Aligned'])
+        elif r < 0.08:      # a code field damaged behind the API's back
+            k = rng.choice(['q', 's'])
+            # a valid non-zero raw qform code would expose a qform that need not be float-exact
+            rv = rng.choice([6, 7, 9, 0] if (k == 'q' and qc == 0) else [5, 6, 7, 9, 0, 3])
+            # an sform code that ends up 0 hands the decision to the qform / fallback: only when that is exact
+            exposes_q = k == 's' and rv not in (1, 2, 3, 4, 5) and qa is not None \
+                and not is_member(qa, rots if qc != 0 else SP)
+            if not exposes_q:
+                hdr['raw'] = {k: rv}
     return mk_rt(cls, shape, aff12_of(A), hdr, 'both', 'exact-nifti')
 
 
@@ -991,9 +1073,14 @@ def general_case(rng, cls):
     if cls in NIFTI and r < 0.45:
         # the affine lives in the qform only; exact 180 degree turns are frequent here
         A = general_affine(rng, p180=0.4)
-        hdr = {'q': [rng.choice([1, 2, 3, 4]), aff12_of(A)], 's': [0, None]}
+        hdr = {'q': [code_tok(rng, rng.choice([1, 2, 3, 4, 5])), aff12_of(A)], 's': [code_tok(rng, 0), None]}
         return mk_rt(cls, shape, aff12_of(A), hdr, 'both', 'general-qform', exact=False, line=False)
     A = general_affine(rng, shear=(cls in NIFTI or cls in SPM) and rng.random() < 0.4)
+    if cls in NIFTI and r < 0.7:
+        # a supplied header that already carries the affine in its sform under any valid code (number or
+        # alias): the header is kept, so the code must come back from the file together with the affine
+        hdr = {'q': [code_tok(rng, 0), None], 's': [code_tok(rng, rng.choice([1, 2, 3, 4, 5, 5])), aff12_of(A)]}
+        return mk_rt(cls, shape, aff12_of(A), hdr, 'both', 'general-sform-code', exact=False, line=True)
     mat = 'both'
     if cls in SPM:
         mat = rng.choice(['both', 'both', 'monly', 'none'])
@@ -1055,13 +1142,16 @@ def component_cases(rng, tier):
             A = np.eye(4)
             A[:3, :3] = M * np.array([float(2 ** rng.randrange(-4, 5)) for _ in range(3)])
             A[:3, 3] = [dyadic(rng) for _ in range(3)]
-            out.append(mk_comp('hq', [cls, aff12_of(A), rng.choice([1, 2, 3, 4])], 'hq-exact'))
+            out.append(mk_comp('hq', [cls, aff12_of(A), code_tok(rng, rng.choice([1, 2, 3, 4, 5]))], 'hq-exact'))
         for _ in range(n // 8):
-            out.append(mk_comp('hq', [cls, aff12_of(exact_affine(rng, q_exact_rots(cls))), rng.choice([0, 1, 2, 3, 4])],
+            out.append(mk_comp('hq', [cls, aff12_of(exact_affine(rng, q_exact_rots(cls))),
+                                      rng.choice([0, 1, 2, 3, 4, 5, 5, 6, 'template', 'NIFTI_XFORM_MNI_152', 'nope'])],
                                'hq-exact'))
-            out.append(mk_comp('hs', [cls, aff12_of(general_affine(rng, shear=True)), rng.choice([0, 1, 2, 3, 4])], 'hs'))
+            out.append(mk_comp('hs', [cls, aff12_of(general_affine(rng, shear=True)),
+                                      rng.choice([0, 1, 2, 3, 4, 5, 5, 7, 'template', 'scanner', 'Template'])], 'hs'))
         for _ in range(n // 2):
-            out.append(mk_comp('hq', [cls, aff12_of(general_affine(rng, p180=0.4)), rng.choice([1, 2, 3, 4])], 'hq-general',
+            out.append(mk_comp('hq', [cls, aff12_of(general_affine(rng, p180=0.4)),
+                                      code_tok(rng, rng.choice([1, 2, 3, 4, 5]))], 'hq-general',
                                line=False))
     # fillpositive threshold decision on stored (b, c, d) right around |bcd| = 1
     for cls, ub in (('N1', 2.0 ** -24), ('N1P', 2.0 ** -24), ('N2', 2.0 ** -53)):
@@ -1104,13 +1194,17 @@ def cases(rng, tier):
     # every q-exact rotation x sform/qform code combination, header supplied, affine equal to the header's
     for cls in NIFTI:
         for M in q_exact_rots(cls):
-            for sc, qc in ((0, 1), (2, 1), (0, 0), (1, 0), (0, 3)):
-                if tier == 'quick' and rng.random() < 0.6:
+            # every valid code (by number and by each alias) in the sform with qform 0, in the qform with
+            # sform 0, and mixed pairs
+            combos = [(c, 0) for c in STD_XFORM] + [(0, c) for c in STD_XFORM] + [(2, 1), (5, 5), (5, 1), (3, 5)]
+            combos += [(n, 0) for c in STD_XFORM for n in STD_XFORM[c]] + [(0, n) for c in STD_XFORM for n in STD_XFORM[c]]
+            for sc, qc in combos:
+                if tier == 'quick' and rng.random() < 0.8:
                     continue
                 A = np.eye(4)
                 A[:3, :3] = M * np.array([float(2 ** rng.randrange(-3, 4)) for _ in range(3)])
                 A[:3, 3] = [dyadic(rng) for _ in range(3)]
-                hdr = {'q': [qc, aff12_of(A)], 's': [sc, aff12_of(A) if sc else None]}
+                hdr = {'q': [qc, aff12_of(A)], 's': [sc, aff12_of(A) if std_code(sc) else None]}
                 out.append(mk_rt(cls, rand_shape(rng, cls), aff12_of(A), hdr, 'both', 'exact-codes'))
     for _ in range(n_exact):
         cls = rng.choice(CLASSES)
@@ -1146,6 +1240,11 @@ def regen():
         f = Fr(float(x))
         return f'({f.numerator} : Rat) / {f.denominator}'
     sig = inspect.signature(np.allclose)
+    from nibabel.nifti1 import xform_codes
+    codes = sorted(int(c) for c in xform_codes.value_set())
+    alias = {c: sorted(str(k) for k, v in xform_codes.field1.items() if isinstance(k, str) and int(v) == c)
+             for c in codes}
+    table = ', '.join('(%d, [%s])' % (c, ', '.join('"%s"' % a for a in alias[c])) for c in codes)
     src = ('/-! GENERATED from /repo by harness/props/c04.py (regen) — do not edit by hand. -/\n'
            'namespace Nb.C04.Gen\n'
            f'def n1QuatThr : Rat := {lit(nib.Nifti1Header.quaternion_threshold)}\n'
@@ -1153,6 +1252,9 @@ def regen():
            f'def floatEps : Rat := {lit(nq.FLOAT_EPS)}\n'
            f'def rtol : Rat := {lit(sig.parameters["rtol"].default)}\n'
            f'def atol : Rat := {lit(sig.parameters["atol"].default)}\n'
+           '/-- `nibabel.nifti1.xform_codes`: every valid code with its string aliases -/\n'
+           f'def xformTable : List (Nat × List String) := [{table}]\n'
+           'def xformCodes : List Nat := xformTable.map (·.1)\n'
            'end Nb.C04.Gen\n')
     write_if_changed(os.path.join(LEAN, 'NibabelModel', 'Generated', 'C04.lean'), src)
     return []
